@@ -519,10 +519,10 @@ pub fn phases(cfg: &Cfg) -> Vec<Box<dyn Phase>> {
         Box::new(Bfs {
             ops: all_ops(&["a", "b"]),
             names: vec!["a", "b"],
-            keys_per_start: if cfg.thorough { 220 } else { 14 },
+            keys_per_start: if cfg.thorough { 220 } else { 40 },
         }),
         Box::new(Histories {
-            n: cfg.n(2_000, 100_000),
+            n: cfg.n(6_000, 100_000),
         }),
     ]
 }
